@@ -453,9 +453,9 @@ class BashRunner:
             try:
                 p = subprocess.run(["/usr/bin/bash", "--norc", "--noprofile", "-c", BASH_PRELUDE + s],
                                    cwd=self.dir_for(c.names), stdout=subprocess.PIPE, stderr=subprocess.DEVNULL,
-                                   env={"LC_ALL": "C.UTF-8", "PATH": "/usr/bin:/bin"}, timeout=20)
+                                   env={"LC_ALL": "C.UTF-8", "PATH": "/usr/bin:/bin"}, timeout=120)
             except subprocess.TimeoutExpired:
-                return ("ERR",)
+                return ("TIMEOUT",)      # a loaded machine, not a verdict: the caller skips the case
             caps = [l for l in p.stdout.decode("latin-1").split("\n") if l.startswith("CAP ")]
             if len(caps) != 1:
                 return ("ERR",)
